@@ -377,9 +377,9 @@ def ob_map_text(run, tier, seed):
                 back = ppc.ppc_mn.asm(txt)
             bw = struct.unpack('>L', back[0])[0]
             if bw != w:
-                fail('text', cls.__name__, w, '"%s" assembles to 0x%08x' % (txt, bw))
+                fail('text', '%s/%s' % (cls.__name__, txt.split()[0] if txt.split() else '?'), w, '"%s" assembles to 0x%08x' % (txt, bw))
         except Exception as ex:
-            fail('text', cls.__name__ + ':' + type(ex).__name__, w, 'assembling "%s" raises %s: %s' % (txt, type(ex).__name__, str(ex)[:80]))
+            fail('text', '%s/%s:%s' % (cls.__name__, txt.split()[0] if txt.split() else '?', type(ex).__name__), w, 'assembling "%s" raises %s: %s' % (txt, type(ex).__name__, str(ex)[:80]))
     return n, dec - len(badwords), groups, time.time() - t0
 
 ALIASES = {'LI': 'ADDI', 'LIS': 'ADDIS', 'BLR': 'BCLR', 'BCTR': 'BCCTR', 'B': 'BC', 'MFFSR': 'MFFS', 'TLBID': 'TLBIA'}
